@@ -223,20 +223,30 @@ func c32Decode(k c32Kind, input []byte) (o c32Obs) {
 	}
 	panicked := false
 	var pv any
-	func() {
-		defer func() {
-			if r := recover(); r != nil {
-				panicked = true
-				pv = r
-			}
+	measure := func() uint64 {
+		func() {
+			defer func() {
+				if r := recover(); r != nil {
+					panicked = true
+					pv = r
+				}
+			}()
+			runtime.ReadMemStats(&c32ms1)
+			// the printers above allocate as well; they run only on success and their cost is
+			// linear in the decoded value (covered by the linear term of the bound)
+			run()
 		}()
-		runtime.ReadMemStats(&c32ms1)
-		// the printers above allocate as well; they run only on success and their cost is
-		// linear in the decoded value (covered by the linear term of the bound)
-		run()
-	}()
-	runtime.ReadMemStats(&c32ms2)
-	o.alloc = c32ms2.TotalAlloc - c32ms1.TotalAlloc
+		runtime.ReadMemStats(&c32ms2)
+		return c32ms2.TotalAlloc - c32ms1.TotalAlloc
+	}
+	// TotalAlloc is process-wide: the runtime or another goroutine may allocate during the window.
+	// The decoders are deterministic, so the minimum over a few runs is the decoder's own cost.
+	o.alloc = measure()
+	for i := 0; i < 4 && o.alloc > 256; i++ {
+		if a := measure(); a < o.alloc {
+			o.alloc = a
+		}
+	}
 	switch {
 	case panicked:
 		o.coq, o.class, o.summary = "OPanic", "panic", fmt.Sprintf("panic: %v", pv)
@@ -707,7 +717,9 @@ func TestVerifC32(t *testing.T) {
 			d.decodeCase(kMsg, c32Cat(c32V(typ), []byte{byte(l >> 8), byte(l)}, []byte{1, 2, 3}), "length-field")
 		}
 	}
-	for _, cnt := range []uint64{31, 32, 33, 64, 1 << 20, 1 << 40, 1<<63 - 1, 1 << 63, 1<<64 - 1} { // namespace field count
+	// (sizes that would make a decoder without its limit check ask the OS for terabytes are avoided: the
+	// process would die instead of reporting; 2^24 fields / 2^30 bytes are enough to break the bound)
+	for _, cnt := range []uint64{31, 32, 33, 64, 1 << 20, 1 << 24, 1<<63 - 1, 1 << 63, 1<<64 - 1} { // namespace field count
 		d.decodeCase(kNs, c32Cat(c32V(cnt), bytes.Repeat([]byte{0}, 40)), "limits")
 		d.decodeCase(kNs, c32Cat(c32V(cnt), bytes.Repeat([]byte{1, 'x'}, 40)), "limits")
 		d.decodeCase(kMsg, c32Cat(c32V(3), []byte{0, 50}, c32V(1), c32V(cnt), bytes.Repeat([]byte{0}, 60)), "limits")
@@ -726,7 +738,7 @@ func TestVerifC32(t *testing.T) {
 	for _, l := range []uint64{1, 131071, 131072, 131073, 1 << 20, 1 << 30} { // properties length of an object
 		d.decodeCase(kSub, c32Cat([]byte{0x31, 1, 0, 0}, c32V(l), []byte{6, 1}), "limits")
 	}
-	for _, l := range []uint64{1, 70000, 10485759, 10485760, 10485761, 1 << 30, 1 << 40, 1<<64 - 1} { // payload length
+	for _, l := range []uint64{1, 70000, 10485759, 10485760, 10485761, 1 << 30, 1<<63 + 1, 1<<64 - 1} { // payload length
 		d.decodeCase(kSub, c32Cat([]byte{0x30, 1, 0, 0}, c32V(l), []byte("abc")), "limits")
 		d.decodeCase(kSub, c32Cat([]byte{0x31, 1, 0, 0, 0}, c32V(l), []byte("abc")), "limits")
 	}
